@@ -6,6 +6,7 @@ import (
 	"math/big"
 	"os"
 	"path/filepath"
+	"runtime/debug"
 	"sort"
 	"strings"
 	"sync"
@@ -36,6 +37,9 @@ func prologue() {
 		core.SenderCacher() // lazily started worker pool: must not be born inside a bubble
 		simsched.Prologue()
 		installLogHandler()
+		// the blob pool's stores allocate slot-sized buffers by the dozen on every
+		// open; a lazier collector saves a third of the wall time
+		debug.SetGCPercent(400)
 	})
 }
 
